@@ -10,7 +10,7 @@ TECH = 'CBMC 6.11 code contracts (goto-instrument --dfcc) on functions extracted
 
 # id -> (decided text, not-decided list, design ref)
 P = {
- 'C01': ('Proof (contracts, all inputs) of the per-edge kernels the region semantics rests on: IsContributingClosed == boundary test of OP(cliptype, FILLED(fillrule, w_subj), FILLED(fillrule, w_clip)) for all 5x4 combinations and all winding numbers; the winding-count update of IntersectEdges preserves the face-winding representation; AddNewIntersectNode keeps the vertex in the scanbeam and on an edge; SetWindCountForClosedPathEdge (bounded AEL) establishes the representation.',
+ 'C01': ('Proof (contracts, all inputs) of the per-edge kernels the region semantics rests on: IsContributingClosed == boundary test of OP(cliptype, FILLED(fillrule, w_subj), FILLED(fillrule, w_clip)) for all 5x4 combinations and all winding numbers; the winding-count update of IntersectEdges preserves the face-winding representation; AddNewIntersectNode keeps the vertex in the scanbeam and on an edge; SetWindCountForClosedPathEdge (bounded AEL) establishes the representation; ring surgery (AddOutPt, JoinOutrecPaths, AddLocalMaxPoly) keeps the OutPt rings consistent.',
          ['AEL ordering, intersection ordering, horizontals, ring assembly, intersection-point accuracy (both precision builds): invariants over unbounded linked structures / floating point'], '5 C01'),
  'C03': ('Proof of the structural predicates (PtsReallyClose, IsVerySmallTriangle, IsValidClosedPath) and of DoSplitOp (the splice creates no equal neighbours; loop-free, rings of 4/5/6); bounded checks of BuildPath64 (>=3 vertices, no equal neighbours incl. last/first) and CleanCollinear (no removable vertex left, over abstract geometry).',
          ['FixSelfIntersects loop, bounding-box clause, all geometric clauses (spikes beyond CleanCollinear, crossings, orientation vs nesting, Union idempotence)'], '5 C03'),
@@ -22,15 +22,15 @@ P = {
          ['the offset region itself (trigonometry, floating point), DoSquare/DoMiter/DoRound geometry'], '5 C06'),
  'C07': ('Proof that per-path state of DoGroupOffset (end type, delta) is re-derived from the group for every path, and of OffsetOpenPath (caps by end type at both ends, forward pass, normal reversal, backward pass).',
          ['stroke geometry, +-delta symmetry, OffsetOpenJoined'], '5 C07'),
- 'C08': ('Proof of GetLocation (exact side / inside classification), Rect64 predicates, location arithmetic, and the Execute shortcuts (inside paths returned unchanged, outside paths dropped).',
-         ['the location state machine of ExecuteInternal, TidyEdges, intersection points, winding equality'], '5 C08'),
+ 'C08': ('Proof of GetLocation (exact side / inside classification), Rect64 predicates, location arithmetic, the Execute shortcuts (inside paths returned unchanged, outside paths dropped), and RectClip64::ExecuteInternal: corner insertion indexes only sides, corner loops terminate, indices in range.',
+         ['what the location state machine outputs beyond safety, TidyEdges, intersection points, winding equality'], '5 C08'),
  'C09': ('Proof of the shared rectangle kernel incl. GetNextLocation (loop contracts), RectClipLines64::Execute shortcuts and per-polyline scratch reset, ExecuteInternal call trace (walk starts at segment 1); bounded GetPath (ring order, two-point pieces kept).',
          ['piece positions and lengths (intersection points)'], '5 C09'),
  'C10': ('Proof of index/iterator safety and UB-freedom (bounds, pointers, signed overflow, conversions, division by zero, float overflow/NaN where stated) of every function under contract, with the coordinate ranges of the property as preconditions; call-site preconditions of the offsetting helpers; GetDx/TopX integer arithmetic; CheckSplitOwner progress contract (termination).',
          ['termination and memory safety of whole operations; leaks; the allocation-failure clause (no exceptions in the verified C dialect)'], '5 C10'),
- 'C11': ('Proof of CheckPrecisionRange (both exception configurations), ScalePath/ScalePaths error reporting, PathsD entry points check precision first and return empty on error (call-trace), export-layer argument validation, NoClip contributes nothing.',
+ 'C11': ('Proof of CheckPrecisionRange (both exception configurations), ScalePath/ScalePaths error reporting, PathsD entry points check precision first and return empty on error (call-trace), export-layer argument validation; AddLocalMaxPoly clears succeeded_ only on a front/back mismatch without an open end.',
          ['"Execute returns true for every input" (needs a global sweep invariant)'], '5 C11'),
- 'C12': ('Proof that CleanUp/Clear reset every scratch member, that RectClip64::Execute starts every path with empty scratch state, and the DoGroupOffset per-path invariant.',
+ 'C12': ('Proof that CleanUp/Clear reset every scratch member, that RectClip64::Execute starts every path with empty scratch state, the DoGroupOffset per-path invariant, and AddReuseableData (copies every local minimum, container untouched).',
          ['bit-identical reruns, arbitrary call sequences, reusable-container sharing'], '5 C12'),
  'C13': ('Proof that LocMinSorter is the strict weak order (y desc, x asc) and IntersectListSort its counterpart; TopX/GetDx free of integer overflow; bounded check that AddPaths_ flags exactly the cyclic local extrema independent of start vertex, duplicates and closing vertex.',
          ['order-independence of the sweep, all algebraic identities and transformations'], '5 C13'),
@@ -38,7 +38,7 @@ P = {
          ['interleavings (CBMC has no threads); nothing here explores schedules'], '5 C14'),
  'C15': ('Proof of SetZ; USINGZ and plain IntersectEdges make the same building calls and every vertex created at a crossing reaches SetZ exactly once iff a callback is installed; the USINGZ/plain twins of the offsetting helpers emit bit-identical x,y; Point::Init copies z; every x/y contract re-proved with -DUSINGZ.',
          ['equality of whole solutions across builds; DoSplitOp callback; ClipperD::ZCB / ClipperOffset::ZCB proxies'], '5 C15'),
- 'C16': ('Proof (call-trace contracts) that every PathsD overload forwards to the integer operation with the documented scale on paths, delta and arc tolerance and descales the result; Point<int64_t>::Init(double) rounds to a nearest integer; BuildPathsD/BuildTreeD pass invScale_.',
+ 'C16': ('Proof (call-trace contracts) that every PathsD overload forwards to the integer operation with the documented scale on paths, delta and arc tolerance and descales the result; Point<int64_t>::Init(double) rounds to a nearest integer; BuildPathsD/BuildTreeD pass invScale_; ScalePath scales x by scale_x and y by scale_y.',
          ['rounding of x*scale itself (floating-point product), precision loss on descale, equality of complete results'], '5 C16'),
  'C17': ('Proof (call-trace contracts) that every exported function forwards every parameter to the slot of the same meaning; argument validation; marshaling length arithmetic and in-bounds access.',
          ['equality of complete results with the C++ call beyond forwarding and marshaling'], '5 C17'),
